@@ -26,6 +26,7 @@ import concurrent.futures
 import hashlib
 import os
 import random
+import re
 import resource
 import signal
 import subprocess
@@ -55,6 +56,7 @@ RULE = (
 )
 
 ASSUMPTIONS = [
+    "a known finding is a (shape, phase, profile) whose crashes start at about the recorded depth; a crash of the same shape at less than 85 % of that depth is reported under its own signature (native-crash-shallower-than-known), so that a change which leaves less stack to the same recursion is not hidden by the finding",
     "RLIMIT_STACK soft limit is set to 8 MiB in the checking process before any child is started (children inherit it); the value is verified through a child and recorded in evidence",
     "children run with a fixed small environment, same-length file names and address-space randomisation disabled (setarch -R), so a given text reaches the same native stack depth in every run and the phase probes can run at exactly the smallest crashing depth; randomisation would move every threshold by a few levels only (measured: +-2 levels at 1518)",
     "an abort with 'memory allocation of N bytes failed' (256 MiB scratch arenas), SIGKILL and the 120 s watchdog are resource outcomes: inconclusive, never violations; a Rust panic (exit 101 in debug, abort in release) is another defect class and is listed as inconclusive with its message",
@@ -767,8 +769,22 @@ def select_shapes(tier, seed):
     return shapes
 
 
+KNOWN_DEPTH = {}
+
+
+def load_known_depths():
+    """signature -> smallest crashing depth recorded in known_findings.json (from its description)."""
+    KNOWN_DEPTH.clear()
+    for f in common.load_findings():
+        if f.get("property") == PROP and f.get("status") == "known":
+            m = re.search(r"smallest crashing depth measured (\d+)", f.get("what", ""))
+            if m:
+                KNOWN_DEPTH[f["signature"]] = int(m.group(1))
+
+
 def run(tier, seed):
     t0 = time.time()
+    load_known_depths()
     res = common.Result()
     ok_limit, limit_note = set_stack_limit()
     res.extra["stack_limit"] = limit_note
@@ -843,6 +859,11 @@ def run(tier, seed):
                 distinct.add((sid, d, pair.profile))
             if r["ending"] == "crash":
                 sig = f"native-crash|{pair.sh.get('sig_id', sid)}|{pair.phase}|{pair.profile}"
+                known_from = KNOWN_DEPTH.get(sig)
+                if known_from and d < 0.85 * known_from:
+                    # a known finding says "crashes from about depth N on"; an input well below N that
+                    # crashes is not that finding (e.g. less stack available than before)
+                    sig = "native-crash-shallower-than-known" + sig[len("native-crash"):]
                 res.failures.append({
                     "idx": idx, "sig": sig, "build": "cli-" + pair.profile,
                     "detail": {"shape": sid, "depth": d, "profile": pair.profile, "phase": pair.phase, "phase_detail": pair.phase_detail, "death": r["note"],
